@@ -18,7 +18,9 @@ ONE, TWO = ("x", "y", "z", "h", "s", "sdg"), ("cx", "cz", "swap")
 
 
 def random_counts(n, rng):
-    style = rng.randrange(4)
+    style = rng.randrange(5)
+    if style == 4:      # nearly uniform statistics: every outcome, counts 1000 +- 2 (expectation values of the order 1e-4 .. 1e-3, none of them zero by accident)
+        return {format(b, f"0{n}b"): 1000 + rng.randrange(-2, 3) for b in range(2 ** n)}
     keys = set()
     k = {0: 1, 1: 2, 2: rng.randrange(2, 2 ** n + 1), 3: 2 ** n}[style]
     while len(keys) < min(k, 2 ** n):
